@@ -188,8 +188,115 @@ func runC07(c *core.Ctx) {
 		c.CapHit("loop pair sweep: wall budget reached")
 	}
 	c.Sample(map[string]any{"sub": "loop-pairs", "A": cat[1].Name, "B": cat[len(cat)-1].Name})
+	c07BoundaryWalk(c)
 	c07Polygons(c)
 	c07Holes(c)
+}
+
+// c07BoundaryWalk relates a multi-cell loop A to small loops B placed at every vertex of A, along
+// every edge of A, and at the centres of A's own index cells and of their children: this moves the
+// only crossings / shared vertices / nesting of the pair through every index cell of A and every
+// quadrant of it, which is what the parallel walk of the two indexes (seekTo, seekBeyond, the
+// early exits on cell centres) is sensitive to.
+func c07BoundaryWalk(c *core.Ctx) {
+	type big struct {
+		name string
+		mk   func() *s2.Loop
+	}
+	bigs := []big{
+		{"regular(20,30,r=10deg,n=40)", func() *s2.Loop { return s2.RegularLoop(lattice.LL(20, 30), lattice.Deg(10), 40) }},
+		{"pentagon-across-faces-0-1", func() *s2.Loop {
+			return s2.LoopFromPoints([]s2.Point{lattice.LL(-10, 20), lattice.LL(-8, 62), lattice.LL(12, 70), lattice.LL(25, 44), lattice.LL(9, 15)})
+		}},
+		{"regular(35.26,45,r=20deg,n=64)@cube-corner", func() *s2.Loop { return s2.RegularLoop(lattice.LL(35.26, 45), lattice.Deg(20), 64) }},
+	}
+	if !c.Quick() {
+		bigs = append(bigs, big{"regular(-50,-120,r=7deg,n=100)", func() *s2.Loop { return s2.RegularLoop(lattice.LL(-50, -120), lattice.Deg(7), 100) }},
+			big{"wedge(1/5,m=20)", lattice.Wedges(5, 20)[1].Make}, big{"regular(0,0,r=95deg,n=40)", func() *s2.Loop { return s2.RegularLoop(lattice.LL(0, 0), lattice.Deg(95), 40) }})
+	}
+	radii := core.Pick(c, []float64{0.3, 0.004}, []float64{1.1, 0.3, 0.02, 0.0004})
+	for bi, bg := range bigs {
+		A := bg.mk()
+		Ainv := bg.mk()
+		Ainv.Invert()
+		A.VerifIndex().Build()
+		Ainv.VerifIndex().Build()
+		refA := refmodel.LoopOf(A)
+		var pos []s2.Point
+		n := A.NumVertices()
+		for i := 0; i < n; i++ {
+			pos = append(pos, A.Vertex(i))
+			for _, f := range core.Pick(c, []float64{0.25, 0.5, 0.75}, []float64{0.125, 0.25, 0.375, 0.5, 0.625, 0.75, 0.875}) {
+				pos = append(pos, s2.Interpolate(f, A.Vertex(i), A.Vertex(i+1)))
+			}
+		}
+		for _, cell := range A.VerifIndex().VerifIndexDump().Cells {
+			pos = append(pos, cell.ID.Point())
+			if cell.ID.Level() < 28 {
+				for _, ch := range cell.ID.Children() {
+					pos = append(pos, ch.Point())
+				}
+			}
+		}
+		pos = lattice.Dedup(pos)
+		c.Count("boundary_walk/positions", int64(len(pos)))
+		c.ParallelFor(len(pos), func(pi int) {
+			for ri, r := range radii {
+				for nv, nB := range []int{4, 36} {
+					if c.Skip("boundary-walk", bi, pi, ri, nv) {
+						continue
+					}
+					cas := []int{bi, pi, ri, nv}
+					detail := func() any {
+						return map[string]any{"A": bg.name, "B": fmt.Sprintf("regular %d-gon, radius %g deg, centred at %s", nB, r, ptStr(pos[pi]))}
+					}
+					c.Guard("boundary-walk", cas, detail, func() {
+						c.Eval(1)
+						c.Nontrivial(1)
+						B := s2.RegularLoop(pos[pi], lattice.Deg(r), nB)
+						Binv := s2.RegularLoop(pos[pi], lattice.Deg(r), nB)
+						Binv.Invert()
+						refB := refmodel.LoopOf(B)
+						ab, ba := A.Contains(B), B.Contains(A)
+						iab, iba := A.Intersects(B), B.Intersects(A)
+						if iab != iba {
+							c.Violate("boundary-walk", "wrong-answer", "Loop.Intersects is not symmetric (large loop vs small loop placed on its boundary / index cells)", cas, detail())
+						}
+						if Ainv.Contains(B) == iab {
+							c.Violate("boundary-walk", "wrong-answer", "'A intersects B iff the complement of A does not contain B' is violated (large loop vs small loop placed on its boundary / index cells)", cas, detail())
+						}
+						if Binv.Contains(Ainv) != ab {
+							c.Violate("boundary-walk", "wrong-answer", "A.Contains(B) != complement(B).Contains(complement(A)) (large loop vs small loop placed on its boundary / index cells)", cas, detail())
+						}
+						if Binv.Contains(A) == iba {
+							c.Violate("boundary-walk", "wrong-answer", "'B intersects A iff the complement of B does not contain A' is violated (large loop vs small loop placed on its boundary / index cells)", cas, detail())
+						}
+						// probes: B's vertices, points strictly inside B, B's centre
+						var probes []s2.Point
+						for i := 0; i < B.NumVertices(); i += B.NumVertices() / 4 {
+							probes = append(probes, B.Vertex(i), s2.Interpolate(0.5, pos[pi], B.Vertex(i)))
+						}
+						probes = append(probes, pos[pi])
+						for _, p := range probes {
+							inA, inB := refA.Contains(p), refB.Contains(p)
+							if ab && inB && !inA {
+								c.Violate("boundary-walk", "wrong-answer", "A.Contains(B) is true but a point of B lies outside A (small loop placed on A's boundary / index cells)", cas, detail())
+								break
+							}
+							if ba && inA && !inB {
+								c.Violate("boundary-walk", "wrong-answer", "B.Contains(A) is true but a point of A lies outside B (small loop placed on A's boundary / index cells)", cas, detail())
+								break
+							}
+							if !iab && inA && inB {
+								c.Violate("boundary-walk", "wrong-answer", "A.Intersects(B) is false but a point lies in both (small loop placed on A's boundary / index cells)", cas, detail())
+								break
+							}
+						}
+					})
+				}
+			}
+		})
+	}
 }
 
 func c07Polygons(c *core.Ctx) {
